@@ -15,6 +15,7 @@
 number."""
 
 from __future__ import annotations
+import copy
 import dataclasses
 from pathlib import Path
 from types import TracebackType
@@ -173,7 +174,9 @@ class _DatasetFillerContext:
         # Update custom_metadata if needed. Only after the write succeeded so
         # that a rejected write does not label (a possibly empty) shard.
         if custom_metadata:
-            current_progress.shard.shard_info.custom_metadata = custom_metadata
+            # Store a copy, the caller may keep mutating the passed object.
+            current_progress.shard.shard_info.custom_metadata = copy.deepcopy(
+                custom_metadata)
 
         # We have updated the current progress.
         assert self._current_shards_progress[split] == current_progress
